@@ -340,7 +340,20 @@ pub fn run(cfg: &Cfg) {
                 let j: serde_json::Value = serde_json::from_str(&v).expect("child answer");
                 for k in j["stats"].as_array().unwrap() { out.stat(k.as_str().unwrap()); }
                 if j["trivial"].as_bool().unwrap() { out.mark_trivial(); }
-                let mon = match j["mon"].as_str() { Some("ok") => Ok(()), Some(w) => Err(w.to_string()), None => Err("?".into()) };
+                let mut mon = match j["mon"].as_str() { Some("ok") => Ok(()), Some(w) => Err(w.to_string()), None => Err("?".into()) };
+                // the same scenario in a process without a logger: the router does the same
+                if mon.is_ok() && hangs < 8 {
+                    match crate::childrun::guarded_timeout_quiet("ps", c.as_bytes(), std::time::Duration::from_secs(8)) {
+                        crate::childrun::Outcome::Value(q) => {
+                            let jq: serde_json::Value = serde_json::from_str(&q).expect("child answer");
+                            // (the map iteration orders of the two runs differ: what is compared is that every property monitor holds there too)
+                            if let Some(w) = jq["mon"].as_str() { if w != "ok" { mon = Err(format!("(no logger installed) {w}")); } }
+                        }
+                        crate::childrun::Outcome::Hang => { hangs += 1; mon = Err("C01/C08/C09/C16: with no logger installed a poll of the router never returned".to_string()); }
+                        crate::childrun::Outcome::Panic(pn) => { mon = Err(format!("C01/C08/C09/C16: with no logger installed: panic {pn}")); }
+                        crate::childrun::Outcome::Abort(a) => { mon = Err(format!("C01/C08/C09/C16: with no logger installed the process aborted: {a}")); }
+                    }
+                }
                 out.case(j["case"].as_str().unwrap(), j["line"].as_str().unwrap(), mon);
             }
             crate::childrun::Outcome::Hang => { hangs += 1; out.stat("impl_hung"); out.case(c, "HANG", Err("C09/C16: a poll of the pub/sub router never returned (it loops without yielding)".into())); }
